@@ -208,7 +208,10 @@ def rand_index(rng, shape):
             ix.append({"slice": [a if rng.random() < 0.7 else None, b if rng.random() < 0.7 else None, st]})
         elif r < 0.9 and d > 0:
             n = rng.randint(1, 3)
-            ix.append({"array": [rng.randrange(d) for _ in range(n)], "shape": [n]})
+            e = {"array": [rng.randrange(d) for _ in range(n)], "shape": [n]}
+            if rng.random() < 0.35:
+                e["dtype"] = rng.choice(["int32", "int16", "uint8", "uint64", "int8"])     # NumPy accepts any integer dtype as an index array
+            ix.append(e)
         else:
             ix.append({"newaxis": True})
             ix.append({"slice": [None, None, None]})
